@@ -66,6 +66,7 @@ type Gen struct {
 	namedSeen map[string]bool
 	verWM     map[string]string // heap version -> allocation watermark when it was created
 	UsedLemmas map[string]bool
+	slicer     *slicer
 	reveals   map[string]bool   // opaque spec functions whose definition is visible in this unit
 	heapProbe *[]string         // when set, heapGet records the heap names it is asked for
 	opaqueDone map[string]bool
